@@ -58,6 +58,7 @@ structure HeaderBlock where
   fields : List (Bytes × List Bytes) := []
   fieldSize : Nat := 0
   isOverSize : Bool := false
+  isMalformed : Bool := false     -- a field decoded so far makes the message malformed (kept across fragments)
   deriving Repr, DecidableEq
 
 /-- `HeaderMap::try_append` (capacity limit not modelled: 24 576+ distinct names) -/
@@ -278,8 +279,10 @@ def HeaderBlock.load (b : HeaderBlock) (src : Bytes) (maxList : Nat) (dec : Deco
     HeaderBlock × Decoder × Bytes × Except FErr Unit :=
   let abuseMax := maxList * Generated.Consts.MAX_HEADER_LIST_ABUSE_MULTIPLIER
   let o := dec.decode src
-  let s0 : LoadSt := { blk := b, reg := !b.fields.isEmpty, malformed := false, wayTooLarge := false, headersSize := b.listSize }
-  let s := loadFields maxList abuseMax o.fields s0
+  let s0 : LoadSt := { blk := b, reg := !b.fields.isEmpty, malformed := b.isMalformed, wayTooLarge := false, headersSize := b.listSize }
+  let s1 := loadFields maxList abuseMax o.fields s0
+  -- `self.is_malformed = malformed;` right after the decoder loop, whatever its result
+  let s : LoadSt := { s1 with blk := { s1.blk with isMalformed := s1.malformed } }
   -- a `Break` ends the decoder loop with `Ok(())`: errors behind the breaking field are never reached
   if s.wayTooLarge then (s.blk, o.dec, o.tail, .error .headerListWayTooLarge)
   else match o.result with
